@@ -84,7 +84,7 @@ class World:
         if act == "Report":
             _, j, status, ts, res = last
             st = None if status == "none" else ("Shutdown" if status == "shutdown" else PROGS[ts - 1])
-            results = [] if res == () else [(DatasetId("t", res[0]), res[1].encode())]
+            results = [] if res == () else [(DatasetId("t", res[0]), REAL[res[1]])]
             rep = ControllerReport(self.jid(j), st, ts, results)
             sock = self.router.jobs[self.jid(j)].socket
             sock.inq.append(serialize(rep))
@@ -101,7 +101,7 @@ class World:
             rd = self.fe_call(api.ResultRetrievalRequest(job_id=self.jid(last[1]), dataset_id=DatasetId("t", last[2])))
             if rd["error"] is not None:
                 return {"ok": False, "bytes": "<none>"}
-            return {"ok": True, "bytes": base64.b64decode(rd["result"]).decode()}
+            return {"ok": True, "bytes": _decode(rd["result"])}
         raise ValueError(act)
 
     def project(self, JobSlot: int, DS: list[str]) -> dict:
@@ -110,11 +110,30 @@ class World:
             if k <= len(self.ids):
                 job = self.router.jobs[self.ids[k - 1]]
                 out["progress"][k] = job.progress
-                out["results"][k] = {d: job.results[DatasetId("t", d)].decode() if DatasetId("t", d) in job.results else "<none>" for d in DS}
+                out["results"][k] = {d: _sym(job.results[DatasetId("t", d)]) if DatasetId("t", d) in job.results else "<none>" for d in DS}
                 out["closed"][k] = job.socket not in self.poller.registered
             else:
                 out["progress"][k], out["results"][k], out["closed"][k] = "0.00", {d: "<none>" for d in DS}, False
         return out
+
+
+# The spec's symbolic payloads stand for real binary payloads: every byte value, all three base64 padding shapes,
+# and bytes whose standard base64 text contains '+' and '/' (round-4 seed C18d: url-safe alphabet on the server side,
+# standard alphabet in cascade.gateway.api.decoded_result).
+REAL = {"x": b"\xfb\xff\xfe" + bytes(range(256)) + b"\xff\xe0>?", "y": b"\x00plain\xff\xfe"}
+SYM = {v: k for k, v in REAL.items()}
+
+
+def _sym(b: bytes) -> str:
+    return SYM.get(bytes(b), "<corrupt:" + bytes(b)[:12].hex() + ">")
+
+
+def _decode(text) -> str:
+    # exactly what the library's own client does (gateway.api.decoded_result): base64.b64decode of the text field
+    try:
+        return _sym(base64.b64decode(text))
+    except Exception as e:
+        return f"<undecodable:{type(e).__name__}>"
 
 
 def _fun(x):
